@@ -151,7 +151,13 @@ def judge(sh: Shard, mw, label, suspend, regime, exited):
             elif e["event"] == b:
                 open_ -= 1
                 if open_ < 0:
-                    if not after_exit:
+                    cleared = any(r_["api"] == "async_set_spa_info" and r_["args"][:2] == [None, None] and r_["seq0"] < e["seq"] for r_ in api)
+                    if cleared:
+                        # (the statement asks that a STARTED phase be closed, not the converse; once the
+                        # spa details were cleared the STARTED announcement itself can fail before it is
+                        # delivered, and the closing event still is: observed on the unchanged tree, counted)
+                        sh.count("finished_without_started_after_details_were_cleared")
+                    elif not after_exit:
                         sh.violation(f"C08:I4:bracket:{name}", f"{b} without a started phase", dict(wbase, trail=tail(i)))
                     open_ = 0
         if open_ and after_exit and name == "CONNECTION":
@@ -188,6 +194,15 @@ def judge(sh: Shard, mw, label, suspend, regime, exited):
             overlapping = any(o is not rec and o["api"] == "async_reset" and o["seq0"] < rec["seq1"] and o.get("seq1", 1 << 60) > rec["seq0"] for o in api)
             key = "C08:I5:reset-postcondition" + (":pump-interleaved" if interleaved else (":overlapping-resets" if overlapping else ""))
             sh.violation(key, f"async_reset (from {rec['before']['state']}, task {rec['task']}) returned with state={a['state']} facade={a['facade'] is not None} spa={a['spa'] is not None} descriptors={a['desc']}", dict(wbase, reset=[round(rec["t0"], 2), round(rec["t1"], 2)]))
+    # ---- I5b: giving the manager its spa details (again, other ones, or none) is a user reset:
+    # a call that returned made a reset (judged above like any other)
+    for rec in api:
+        if rec["api"] == "async_set_spa_info" and rec["t1"] is not None and rec["exc"] is None:
+            sh.count("set_spa_info_calls_returned")
+            sh.see("set_spa_info_from_states", rec["before"]["state"])
+            inside = [o for o in api if o["api"] == "async_reset" and rec["seq0"] < o["seq0"] < rec["seq1"]]
+            if not inside:
+                sh.violation("C08:I5:set-spa-info-without-reset", f"async_set_spa_info{tuple(rec['args'])} called in state {rec['before']['state']} returned without resetting the manager", dict(wbase, call=[round(rec["t0"], 2), round(rec["t1"], 2)]))
     # ---- I6: status sensor mirrors state
     for i, e in enumerate(ev):
         if e["sensor"] is not None and e["sensor"] != to_string(e["state"]):
@@ -245,7 +260,7 @@ def gen_script(r, tier):
         phases = [Phase("healthy", r.choice([20, 60, 140]))]
         n = r.choice([1, 2, 4])
         for _ in range(n):
-            actions.append((r.choice([r.uniform(0, 6), r.uniform(0, phases[0].dur)]), r.choice(["reset", "reset", "set-info"])))
+            actions.append((r.choice([r.uniform(0, 6), r.uniform(0, phases[0].dur)]), r.choice(["reset", "reset", "set-info", "clear-info"])))
     elif kind == "reset-at-step":
         # a user reset right after the k-th callback scheduled since the context was entered
         phases = [Phase("healthy", r.choice([10, 25]))]
@@ -320,6 +335,10 @@ def scenario(sh: Shard, seed, idx, tier):
                             _, act = pending.pop(0)
                             if act == "reset":
                                 users.append(asyncio.ensure_future(man.async_reset()))
+                            elif act == "clear-info":
+                                # "forget this spa" (what the sample console's clear command does)
+                                users.append(asyncio.ensure_future(man.async_set_spa_info(None, None, None)))
+                                sh.count("spa_details_cleared")
                             else:
                                 users.append(asyncio.ensure_future(man.async_set_spa_info(mw.kw["spa_address"], mw.kw["spa_identifier"], mw.kw["spa_name"])))
                             sh.count("user_actions")
@@ -383,6 +402,7 @@ def main(tier, seed):
     run.extra["distinct_abstract_states"] = len(run.sets.get("abstract_states", set()))
     run.need(run.counters.get("rf_error_escalations_due", 0) >= 1, "no connection saw more RF errors than the escalation limit")
     run.need(run.counters.get("client_handler_failures", 0) >= 5, "too few client handler failures inside locate/connect phases were injected")
+    run.need(run.counters.get("set_spa_info_calls_returned", 0) >= 10 and run.counters.get("spa_details_cleared", 0) >= 3, "set-spa-info calls / clearing of the spa details hardly exercised")
     return run.finish(
         rule="scenarios of the real manager against the real simulator: plain connects, outages while connected, RF-error periods, lossy handshakes (retry exhaustion), absent spa, wrong identifier, user resets / set-spa-info at drawn instants (incl. mid-handshake), endpoint creation raising, long mixed scripts; client handlers that never suspend / suspend one tick / seconds / mixed; regimes B/J/H; one evaluation = one scenario trace judged by I1-I7; distinct = distinct scenario traces; coverage of (state,event) pairs and abstract states is reported",
         assumptions=["I7 (transition table) is judged only on runs whose client handlers never suspend", "an open locate/connect bracket at context exit (cancellation) is counted, not flagged"],
